@@ -3,7 +3,7 @@ import json, os, random
 import vlib
 from vlib import cfg_text, q, tlc, expect_holds, expect_witness, vh_replay, vh_trace, validate_trace, Check, ToolError, log
 
-W = min(vlib.NCPU, 12)
+W = int(os.environ.get("VERIF_WORKERS", "0")) or min(vlib.NCPU, 12)
 
 
 def sample_ndjson(path, k, name, pred=None):
